@@ -19,7 +19,7 @@ from . import cluster_units as CU
 from .c17 import map_stores, returned_map_name
 from .common import bound_args, borrow, call_name, enclosing_loops, path_must, reaching_value, short, stmt_contains
 
-FLOORS = {'C09.R1': 2, 'C09.R2': 5, 'C09.R4': 1}
+FLOORS = {'C09.R1': 2, 'C09.R2': 5, 'C09.R4': 1, 'C09.R7': 1}
 
 IDLE = "Cluster._resources['idle']"
 
@@ -38,6 +38,7 @@ def check(repo, res, tier):
     r1(repo, res, canon, pc, logic)
     r2(repo, res, canon, pc, logic, plogic)
     r4(repo, res, canon, logic)
+    r7(repo, res, canon)
     from . import c01, c02, c05
     borrow(repo, res, tier, c01, {'C01.N3', 'C01.N5'}, 'C09.R3')
     borrow(repo, res, tier, c02, {'C02.P2', 'C02.P4'}, 'C09.R3')
@@ -264,6 +265,71 @@ def r2(repo, res, canon, pc, logic, plogic):
             oks = oks and seen > 0
     (res.ok if oks else res.bad)('C09.R2', pb, loops[0] if loops else None, 'provision_batch_resources reserves `size` machines',
                                  'ok' if oks else 'the number of machines reserved is not the requested size')
+
+
+def r7(repo, res, canon):
+    """The count of live reservations (the number the partition bound is tested against) moves
+    with the reservation table: +1 exactly where a provisioning succeeds, -1 exactly where a key
+    of the table is dropped."""
+    res.rule('C09.R7', 'num_provisioned_obs is +1 on every successful provisioning and -1 with every key dropped from the '
+                       'reservation table (so "partitions free" compares the true number of live reservations)')
+    CNT = 'Cluster.num_provisioned_obs'
+    cl = repo.cls('Cluster')
+    n_inc = n_dec = 0
+    for name, f in sorted(cl.methods.items()):
+        if name == '__init__' or getattr(f, 'inlined', False):
+            continue
+        touches = False
+        for p in cached_paths(f):
+            if p.exit == 'raise':
+                continue
+            effs = path_effects(canon, p.events)
+            incs = [ef for ef in effs if ef.loc == CNT and ef.kind == 'aug+']
+            decs = [ef for ef in effs if ef.loc == CNT and ef.kind == 'aug-']
+            other = [ef for ef in effs if ef.loc == CNT and ef.kind not in ('aug+', 'aug-')]
+            drops = [ef for ef in effs if ef.loc == IDLE and ef.kind in ('pop', 'del', 'popitem', 'clear')]
+            if not (incs or decs or other or drops):
+                continue
+            touches = True
+            for ef in other:
+                res.bad('C09.R7', f, ef.node, short(ast.unparse(ef.node)),
+                        'the reservation count is overwritten instead of moved by one with the reservation table')
+            if any(ef.value is None or ast.unparse(ef.value) != '1' for ef in incs + decs):
+                res.bad('C09.R7', f, (incs + decs)[0].node, 'count moved by something else than 1',
+                        'the reservation count changes by %s' % short(ast.unparse((incs + decs)[0].node)))
+            if len(decs) != len(drops):
+                res.bad('C09.R7', f, (decs + drops)[0].node, '%d key(s) dropped, count lowered %d time(s)' % (len(drops), len(decs)),
+                        'on a path of %s the reservation table loses %d key(s) while the reservation count is lowered %d '
+                        'time(s): the partition bound is tested against a wrong number (too many or too few concurrent '
+                        'reservations are admitted)' % (f.qual, len(drops), len(decs)), path=p.describe())
+            else:
+                n_dec += len(decs)
+            if name == 'provision_batch_resources':
+                rets = [e.node for e in p.events if e.kind == 'stmt' and isinstance(e.node, ast.Return)]
+                truthy = bool(rets) and isinstance(rets[-1].value, ast.Constant) and rets[-1].value.value is True
+                if truthy and len(incs) != 1:
+                    res.bad('C09.R7', f, rets[-1], 'successful provisioning counts %d reservation(s)' % len(incs),
+                            'provision_batch_resources reports success on a path that raises the reservation count %d times: '
+                            'the bound on concurrent reservations is no longer enforced' % len(incs), path=p.describe())
+                elif not truthy and incs:
+                    res.bad('C09.R7', f, incs[0].node, 'count raised on a refusing path',
+                            'the reservation count is raised although provisioning is refused')
+                elif truthy:
+                    n_inc += 1
+            elif incs:
+                res.bad('C09.R7', f, incs[0].node, 'count raised outside provision_batch_resources',
+                        'the reservation count is raised in %s, where no reservation is made' % f.qual)
+        if touches:
+            res.analysed(f, len(cached_paths(f)))
+    if n_inc and n_dec:
+        res.ok('C09.R7', cl.methods['provision_batch_resources'], None,
+               'reservation count +1 per successful provisioning, -1 per dropped key', '%d/%d path(s)' % (n_inc, n_dec))
+    elif not n_inc:
+        res.bad('C09.R7', cl.methods['provision_batch_resources'], None, 'no successful provisioning path counts the reservation',
+                'the reservation count is never raised: the bound on concurrent reservations is never reached')
+    else:
+        res.bad('C09.R7', cl.methods['provision_batch_resources'], None, 'the reservation count is never lowered',
+                'no release lowers the reservation count: after max_resource_partitions workflows nothing can be provisioned')
 
 
 def r4_blocks(repo, res, canon, logic):
